@@ -8,6 +8,7 @@ package harness
 // projection the node model talks about.
 
 import (
+	servertypes "github.com/cosmos/cosmos-sdk/server/types"
 	"context"
 	"crypto/sha256"
 	"encoding/hex"
@@ -122,9 +123,29 @@ type c06Replica struct {
 	restarts, reads int
 }
 
-func c06NewApp(db dbm.DB) *app.Canto {
+// c06NodeOptions: node-local configuration (app.toml keys of the JSON-RPC, API and gRPC servers and of the node's own
+// housekeeping).  It differs from operator to operator and is not part of the replicated state machine: replicas run
+// with DIFFERENT values and must still agree on every block.
+type c06NodeOptions map[string]interface{}
+
+func (o c06NodeOptions) Get(k string) interface{} { return o[k] }
+
+func c06OptionsOf(name string) servertypes.AppOptions {
+	switch name {
+	case "B", "E":
+		return c06NodeOptions{"json-rpc.gas-cap": uint64(10_000_000), "json-rpc.evm-timeout": "1s", "json-rpc.logs-cap": int32(7), "json-rpc.block-range-cap": int32(11),
+			"json-rpc.txfee-cap": float64(0.5), "json-rpc.filter-cap": int32(3), "api.enable": true, "grpc.enable": false, "iavl-cache-size": 5, "index-events": []string{"message.sender"},
+			"min-retain-blocks": uint64(3), "halt-height": uint64(0), "inter-block-cache": false}
+	case "D":
+		return c06NodeOptions{"json-rpc.gas-cap": uint64(50_000_000), "json-rpc.evm-timeout": "10m", "json-rpc.logs-cap": int32(100000), "json-rpc.allow-unprotected-txs": true,
+			"api.enable": false, "grpc.enable": true, "iavl-cache-size": 1_000_000, "inter-block-cache": true}
+	}
+	return simtestutil.EmptyAppOptions{}
+}
+
+func c06NewApp(name string, db dbm.DB) *app.Canto {
 	return app.NewCanto(log.NewNopLogger(), db, nil, true, map[int64]bool{}, app.DefaultNodeHome, 0, false,
-		simtestutil.EmptyAppOptions{}, baseapp.SetChainID(ChainID))
+		c06OptionsOf(name), baseapp.SetChainID(ChainID))
 }
 
 func c06DecOf(raw string) sdkmath.LegacyDec {
@@ -254,7 +275,7 @@ func c06GenesisBytes(a *app.Canto, k *c06Keys, g c06Gen, w *csWorld) []byte {
 // keeper-level preparation on the state of block 1 (token pairs, contracts), identical on every replica.
 func c06Start(name string, k *c06Keys, g c06Gen) (*c06Replica, *c06World) {
 	r := &c06Replica{name: name, db: dbm.NewMemDB()}
-	r.app = c06NewApp(r.db)
+	r.app = c06NewApp(r.name, r.db)
 	a := r.app
 	cw := c06CsWorld(a, k)
 	bz := c06GenesisBytes(a, k, g, cw)
@@ -337,7 +358,7 @@ func c06CsWorld(a *app.Canto, k *c06Keys) *csWorld {
 
 // restart: a new process image on the same database
 func (r *c06Replica) restart() {
-	r.app = c06NewApp(r.db)
+	r.app = c06NewApp(r.name, r.db)
 	r.restarts++
 }
 
